@@ -191,6 +191,18 @@ var opMuts = []opMut{
 			b.Signed["revealValue"] = b.Reveal
 		}
 	}},
+	{"key/nonce-but-configured-size-0", "urd", func(r *rand.Rand, b *built, cfg M) {
+		// a protocol whose nonce size is 0 admits no nonce at all
+		name := map[string]string{"update": "updateKey", "recover": "recoveryKey", "deactivate": "recoveryKey"}[b.Typ]
+		cfg["nonceSize"] = 0
+		k := *b.Key
+		k.Nonce = opb.B64E(opb.RandBytes(r, pick(r, []int{16, 1, 8})))
+		b.Signed[name] = k.JWK()
+		b.Reveal = k.Reveal(b.Code)
+		if b.Typ == "deactivate" {
+			b.Signed["revealValue"] = b.Reveal
+		}
+	}},
 	{"key/nonce-bad-base64", "urd", func(r *rand.Rand, b *built, cfg M) {
 		name := map[string]string{"update": "updateKey", "recover": "recoveryKey", "deactivate": "recoveryKey"}[b.Typ]
 		k := *b.Key
